@@ -1,11 +1,19 @@
 """C04 - simplify preserves the sample genealogy and sample genotypes exactly."""
 LEVEL = "other"
 EXPLANATION = ("The headline clause is a whole-algorithm equivalence over linked segment lists; no per-function contract within "
-               "reach carries it. Bounded: over seeded small tree sequences x sample lists (any order, non-sample nodes) x option "
+               "reach carries it. Proved (all inputs): the two steps that create and withdraw output nodes - "
+               "simplifier_record_node appends exactly one output node carrying the input row's time, population, individual "
+               "and metadata, its flags unchanged except the sample bit, which is set exactly for the requested samples (unless "
+               "NO_UPDATE_SAMPLE_FLAGS), and maps the input id to the new row, leaving every other map entry and output row as "
+               "it was; simplifier_rewind_node sets the map entry to NULL and truncates the output to the given length. "
+               "Bounded: over seeded small tree sequences x sample lists (any order, non-sample nodes) x option "
                "combinations the node map (range, injectivity, time/metadata, samples[k] -> k), the MRCA of every sample pair at "
-               "every position, the alleles of every sample at every site, validity of the output and idempotence are compared "
-               "with values recomputed from the table columns.")
-C_FUNCS = []
+               "every position, the retained ancestors on every sample's path (samples, coalescences, unary nodes under "
+               "keep_unary[_in_individuals], input roots under keep_input_roots), the alleles of every sample at every site, "
+               "validity of the output and idempotence are compared with values recomputed from the table columns.")
+C_FUNCS = [("tables.c", "simplifier_record_node"), ("tables.c", "simplifier_rewind_node")]
 BOUNDED = [{"name": "simplify_vs_tables", "module": "standins.c04_simplify", "timeout": 900, "asan": "thorough"}]
-UNVERIFIED = ["simplifier_* (bounded only)"]
-ASSUMPTIONS = []
+UNVERIFIED = ["every other simplifier_* function: segment merging, edge recording and flushing, site / population / individual "
+              "finalisation, input roots (bounded only)"]
+ASSUMPTIONS = ["representation invariants of the input and output node tables (C13) and arrays of one entry per input node "
+               "(node_id_map, is_sample) are preconditions; the simplifier's own initialisation is not verified"]
